@@ -1477,8 +1477,11 @@ __archive_read_filter_ahead(struct archive_read_filter *filter,
 				return (NULL);
 			}
 			if (bytes_read == 0) {
-				/* Check for another client object first */
-				if (filter->archive->client.cursor !=
+				/* Check for another client object first
+				 * (only the filter that reads from the
+				 * client can switch to it) */
+				if (filter->upstream == NULL &&
+				    filter->archive->client.cursor !=
 				      filter->archive->client.nodes - 1) {
 					if (client_switch_proxy(filter,
 					    filter->archive->client.cursor + 1)
